@@ -27,8 +27,8 @@ func (*C16) Name() string { return "C16" }
 type dataGhost struct {
 	production bool              // the module's own (production) ID hasher is in use
 	id         map[string]string // iri -> id (hex) as first observed in state
-	anchor     map[string]string  // iri -> first anchor time (unix nanos)
-	attest     map[string]string  // iri|attestor -> first attestation time
+	anchor     map[string]string // iri -> first anchor time (unix nanos)
+	attest     map[string]string // iri|attestor -> first attestation time
 	reg        map[string]bool   // resolver id|iri
 }
 
